@@ -2,6 +2,7 @@ import Wasp.Model.Broker
 import Wasp.Model.Wire
 import Driver.Util
 import Driver.Dist
+import Driver.Auth
 /-! Driver for domain `broker` (see harness/broker.go for the op syntax). Renders, after every
     op, the packets each client received since the previous op — sorted, with broker-chosen packet
     identifiers numbered per client in content order — exactly as the harness does. -/
@@ -15,9 +16,16 @@ structure CState where
   outst : List (Nat × Nat) := []     -- (canonical index, qos) of deliveries this client has not acknowledged
   toldClosed : Bool := false         -- CLOSED is reported once per connection
 
+/-- who decides CONNECTs: the harness rule (user = mount point, password "ok"), or a model of a real credential store -/
+inductive AuthCfg where
+  | harness
+  | file (db : List Wasp.Auth.Record)
+  | static (user pass : String)
+
 structure St where
   w : World := World.init 1
   clients : List (String × CState) := []
+  auth : AuthCfg := .harness
 
 def sortStrs (l : List String) : List String := (l.toArray.qsort (· < ·)).toList
 def b2i (b : Bool) : Nat := if b then 1 else 0
@@ -89,7 +97,7 @@ def observe (st : St) (res : String) : St × String :=
     let pkts := (st.w.out.filter (fun e => e.1 == name)).map (·.2)
     let (cs', s) := renderClient name cs pkts
     (cl.map (fun e => if e.1 == name then (name, cs') else e), if s = "" then parts else parts ++ [s])) (st.clients, [])
-  ({ w := { st.w with out := [] }, clients }, if parts.isEmpty then res else res ++ " | " ++ " ".intercalate parts)
+  ({ st with w := { st.w with out := [] }, clients := clients }, if parts.isEmpty then res else res ++ " | " ++ " ".intercalate parts)
 
 def ensureClient (st : St) (name : String) : St :=
   if st.clients.any (fun e => e.1 == name) then { st with clients := st.clients.map (fun e => if e.1 == name then (name, {}) else e) }
@@ -146,6 +154,20 @@ def step (st : St) (line : String) : St × String :=
     let authOk := !(mount.startsWith "!")
     let mp := if authOk then mount else (mount.drop 1).toString
     observe { st with w := st.w.connect c node.toNat! client mp authOk ka.toNat! (parseWillSpec will) } "ok"
+  | "authfile" :: ls => ({ st with auth := .file (Wasp.Auth.load id (ls.map Driver.Auth.parseLine)) }, "ok")
+  | ["authstatic", u, p] => ({ st with auth := .static (Driver.Auth.un u) (Driver.Auth.un p) }, "ok")
+  | ["connectas", c, node, client, user, pass, ka, will] =>
+    let st := ensureClient st c
+    let st := if (st.w.conns.any (fun e => e.1 == c)) then { st with w := st.w.drop c } else st
+    let st := { st with w := { st.w with out := st.w.out.filter (fun e => e.1 != c) } }
+    let plain (s : String) : String := Driver.Auth.un ((s.splitOn "=").headD s)
+    let verdict : Option String := match st.auth with
+      | .harness => if plain pass = "ok" then some (plain user) else none
+      | .file db => Wasp.Auth.authenticate id db (Driver.Auth.fpOf user) (Driver.Auth.fpOf pass)
+      | .static cu cp => Wasp.Auth.staticAuthenticate id cu cp (plain user) (plain pass)
+    (match verdict with
+     | some m => observe { st with w := st.w.connect c node.toNat! client m true ka.toNat! (parseWillSpec will) } "ok"
+     | none => observe { st with w := st.w.connect c node.toNat! client "" false ka.toNat! (parseWillSpec will) } "ok")
   | ["sub", c, mid, spec] =>
     if !known st c then (st, "noclient") else
     if !writable st c then observe st "write-failed" else
